@@ -79,14 +79,15 @@ theorem SubstCert.bw_agree (hM : ImplMatches h c m sh z neg prim anm vm v) : Agr
     simp [portVal, inPorts_idxOf ct.shape ct.ioNodup k inn hinn, hll]
 
 /-- **gluing**: the glued labelling is consistent for the result -/
-theorem SubstCert.bw_cons (hH : ConsHole h c z neg prim an v) (hM : ImplMatches h c m sh z neg prim anm vm v) :
-    ConsN h' z neg prim (glueA h c m map an anm) (glueV h m map v vm) := by
+theorem SubstCert.bw_cons (S : Nat → Prop) (hH : ConsOff h (fun d => S d ∨ d = c) z neg prim an v)
+    (hM : ImplMatches h c m sh z neg prim anm vm v) :
+    ConsOff h' S z neg prim (glueA h c m map an anm) (glueV h m map v vm) := by
   have ag := ct.bw_agree z neg prim v anm vm hM
   have hA : ∀ j x, j ∉ m.net.io → map.getD j none = some x → anm j = glueA h c m map an anm x :=
     fun j x hj hm => ct.bw_hA an anm j x hj hm
   have hP : ∀ p ∈ m.net.io, anm p = portVal h c sh z (glueV h m map v vm) p := by
     intro p hp; rw [ct.bw_portVal z v vm p]; exact hM.2.1 p hp
-  intro l' hl'
+  intro l' hl' hnS
   rcases ct.line_split l' hl' with hlt | ⟨t, ht, e⟩
   · rw [ct.bw_host v vm l' hlt]
     by_cases hd : (h.net.line l').driver = c
@@ -97,7 +98,10 @@ theorem SubstCert.bw_cons (hH : ConsHole h c z neg prim an v) (hM : ImplMatches 
       obtain ⟨il, _, _, hk, _, _, _⟩ := ct.outWire _ l' hout
       rw [ct.eq_outline z neg prim _ _ anm vm ag hA hP hM.1 _ il l' hk hout]
       exact (hM.2.2 _ il l' hk hout).symm
-    · rw [hH l' hlt hd]
+    · rw [hH l' hlt (by
+          rintro (hs | hs)
+          · exact hnS (by rw [(ct.drvFrame l' hlt hd).1]; exact hs)
+          · exact hd hs)]
       exact (ct.eq_hostline z neg prim an _ v _ (fun l hl => ct.bw_host v vm l hl)
         (fun d hd hne => ct.bw_hostA an anm d hd hne) l' hlt hd).symm
   · subst e
